@@ -24,7 +24,7 @@ type c11Case struct {
 	Kind     string `json:"transport"`
 	Phase    int    `json:"phase"`     // steps completed before the end: 0 none, 1 handshake, 2 tunnel, 3 auth, 4 channel, 5 channel+data
 	InFlight string `json:"in_flight"` // none | client | host | both
-	Ending   string `json:"ending"`    // close | out-of-order | unframeable | fin | rst | fin-out | rst-out
+	Ending   string `json:"ending"`    // close | out-of-order | unframeable | fin | rst | fin-out | rst-out | last-chunk | second-channel (a further CHANNEL_CREATE, then the client drops)
 	DupIn    bool   `json:"duplicate_in,omitempty"` // legacy: a second RDG_IN_DATA with the same connection id arrives while the tunnel is live
 	Stalled  bool   `json:"stalled_client,omitempty"` // websocket: the client stops reading while the host keeps sending, then ends the tunnel without eliciting a response
 }
@@ -54,6 +54,9 @@ func genC11(t *rapid.T) c11Case {
 	}
 	if c.Kind == "legacy" && rapid.IntRange(0, 4).Draw(t, "lastChunk") == 0 {
 		c.Ending = "last-chunk" // the client (or a proxy in front) ends the RDG_IN_DATA body with the terminating zero-length chunk
+	}
+	if c.Phase >= 4 && rapid.IntRange(0, 7).Draw(t, "secondChannel") == 0 {
+		c.Ending = "second-channel"
 	}
 	if c.Kind == "ws" && c.Phase >= 4 && rapid.IntRange(0, 5).Draw(t, "stalled") == 0 {
 		// endings that need no response from the gateway (a response could not be written to a client that
@@ -215,6 +218,21 @@ func runC11(c c11Case) *Violation {
 			}
 		case "last-chunk":
 			conn.(*gwc.Legacy).SendRawIn([]byte("0\r\n\r\n"))
+		case "second-channel":
+			// a further CHANNEL_CREATE on a tunnel that has its channel; whatever the gateway makes of it (it is out
+			// of order), the client then drops - every host connection made for this tunnel must be released
+			before := countPackets(conn)
+			u2, _ := render(histCfg{Opts: o, Kind: c.Kind}, []PktSpec{{K: "cc", Host: "A"}}, "127.0.0.1")
+			conn.Send(u2[0])
+			waitFor(func() bool { return countPackets(conn) > before || conn.WaitEOF(0) })
+			w.L["A"].WaitAccept(snap["A"]+2, 300*time.Millisecond)
+			switch cc := conn.(type) {
+			case *gwc.WS:
+				cc.Close()
+				clientClosedAll = true
+			case *gwc.Legacy:
+				cc.CloseIn(false)
+			}
 		case "fin", "rst":
 			switch cc := conn.(type) {
 			case *gwc.WS:
@@ -243,6 +261,11 @@ func runC11(c c11Case) *Violation {
 		// 1. the backend connection is closed by the gateway
 		if host != nil && !host.WaitEOF(releaseBound) {
 			return viol(sig("c11/backend-not-closed/"+c.Ending), "the connection to the remote desktop host is still open %v after the tunnel ended (%s)", releaseBound, desc)
+		}
+		for i, hc := range w.L["A"].Conns()[snap["A"]:] {
+			if !hc.WaitEOF(releaseBound) {
+				return viol(sig("c11/backend-not-closed/"+c.Ending), "connection %d of those made to the remote desktop host for this tunnel is still open %v after the tunnel ended (%s)", i+1, releaseBound, desc)
+			}
 		}
 		if c.Stalled {
 			// while the client still does not read: the handler and its goroutines must be gone already
@@ -412,6 +435,18 @@ func TestC11_BIN(t *testing.T) {
 			conn.Send(append(tsgu.Header(tsgu.PktData, 3), 1, 2, 3, 4))
 		case "last-chunk":
 			conn.(*gwc.Legacy).SendRawIn([]byte("0\r\n\r\n"))
+		case "second-channel":
+			before := countPackets(conn)
+			u2, _ := render(histCfg{Opts: o, Kind: c.Kind}, []PktSpec{{K: "cc", Host: "A"}}, "127.0.0.1")
+			conn.Send(u2[0])
+			waitFor(func() bool { return countPackets(conn) > before || conn.WaitEOF(0) })
+			w.L["A"].WaitAccept(snap["A"]+2, 300*time.Millisecond)
+			switch cc := conn.(type) {
+			case *gwc.WS:
+				cc.Close()
+			case *gwc.Legacy:
+				cc.CloseIn(false)
+			}
 		case "fin", "rst":
 			switch cc := conn.(type) {
 			case *gwc.WS:
@@ -427,6 +462,11 @@ func TestC11_BIN(t *testing.T) {
 		desc := fmt.Sprintf("real binary, %s, ended in phase %d by %s with %s traffic in flight", c.Kind, c.Phase, c.Ending, c.InFlight)
 		if host != nil && !host.WaitEOF(releaseBound) {
 			return viol("c11/backend-not-closed/"+c.Ending, "the connection to the remote desktop host is still open %v after the tunnel ended (%s)", releaseBound, desc)
+		}
+		for i, hc := range w.L["A"].Conns()[snap["A"]:] {
+			if !hc.WaitEOF(releaseBound) {
+				return viol("c11/backend-not-closed/"+c.Ending, "connection %d of those made to the remote desktop host for this tunnel is still open %v after the tunnel ended (%s)", i+1, releaseBound, desc)
+			}
 		}
 		if c.Ending != "fin" && c.Ending != "rst" || c.Kind == "legacy" {
 			if !conn.WaitEOF(releaseBound) {
